@@ -13,7 +13,7 @@ var (
 	// ExoticLits are literal route segments that need escaping on the wire (the routers see the decoded path);
 	// not used in root paths: net/http's ServeMux gives blanks and braces in patterns a meaning of their own
 	ExoticLits = []string{"ünï", "a b", "x+y", "q@r", "50%", "a,b", "(x)", "日本", "a=b", "~t", "$1", "a;b"}
-	Suffixes   = []string{".json", ".foo", "-x", "_v2"}
+	Suffixes   = []string{".json", ".foo", "-x", "_v2", "x", "."} // also one-character suffixes
 	Verbs      = []string{"cancel", "run", "Verb"}
 	Methods    = []string{"GET", "POST", "PUT", "DELETE", "PATCH", "HEAD"}
 	Medias     = []string{"application/json", "application/xml", "text/plain", "application/x-verif"}
